@@ -300,7 +300,7 @@ pub fn check(c: &RipCase, known: &Known) -> Verdict {
         IDX_SETUP => "rip|setup".to_string(),
         i => c.segs.get(i as usize).map(family).unwrap_or_else(|| "rip|?".to_string()),
     };
-    crate::common::isolate(&fam_of, known, &|rep, removed| {
+    crate::common::isolate(c, &fam_of, known, &|c: &RipCase, rep, removed| {
         let infos: Vec<SegInfo> = c
             .segs
             .iter()
@@ -331,7 +331,7 @@ pub struct Table {
 
 impl Table {
     /// all strings over {0,1,Z} of length 0..=full_len (quick 6, thorough 8); for every longer length up to 24 the 9
-    /// periodic patterns; for the two even lengths after full_len (quick 8 and 10, thorough 10 and 12) all strings of two-digit fields over {00, 0Z, ZZ}
+    /// periodic patterns; for the even lengths after full_len up to 10 (quick) / 12 (thorough) all strings of two-digit fields over {00, 0Z, ZZ}
     pub fn new(thorough: bool) -> Table {
         let full_len = if thorough { 8 } else { 6 };
         let mut strings: Vec<Vec<u8>> = Vec::new();
@@ -349,7 +349,7 @@ impl Table {
             for pat in PATTERNS {
                 strings.push((0..l).map(|k| pat[k % pat.len()]).collect());
             }
-            if l % 2 == 0 && l <= full_len + 4 {
+            if l % 2 == 0 && l <= if thorough { 12 } else { 10 } {
                 let nf = l / 2;
                 for mut i in 0..3u64.pow(nf as u32) {
                     let mut s = Vec::with_capacity(l);
@@ -468,6 +468,8 @@ impl Pairs {
         d.push(mk(1, b'P', &[(2, 20), (2, 20), (2, 0), (1, 0)], b""));
         d.push(mk(1, b'G', &[(2, 10), (2, 10), (2, 50), (2, 50), (2, 0), (2, 100)], b""));
         d.push(mk(1, b'U', &[(2, 20), (2, 20), (2, 100), (2, 60), (2, 65), (1, 0), (1, 0)], b"<>Ab<>cmd^M"));
+        // label with a character outside ASCII in front of the hot key
+        d.push(mk(1, b'U', &[(2, 20), (2, 20), (2, 100), (2, 60), (2, 120), (1, 0), (1, 0)], b"<>\xe4x<>cmd^M"));
         d.push(mk(1, b'M', &[(2, 0), (2, 10), (2, 10), (2, 50), (2, 50), (1, 1), (1, 0), (5, 0)], b"cmd^M"));
         d.push(mk(0, b'e', &[], b""));
         d.push(mk(0, b'E', &[], b""));
